@@ -55,10 +55,9 @@ def sig_of(f, beh):
     return '%s|%s|%s|%s' % (f['kind'], d.get('fn', ''), typ, str(what)[:80])
 
 
-def pdrive(behs, work, tag, args, jobs, timeout):
+def pdrive(behs, work, tag, args, jobs, timeout, chunk=40):
     """like progfam.pdrive, with the environment (LSan on) passed to the driver"""
     n = len(behs)
-    chunk = 40
     jobs = max(1, min(jobs, (n + chunk - 1) // chunk))
     size = (n + jobs - 1) // jobs
 
@@ -87,11 +86,11 @@ def pdrive(behs, work, tag, args, jobs, timeout):
     return results, crashes, lsan
 
 
-def run_family(chk, name, behs, args, stats, jobs=8, timeout=2400):
+def run_family(chk, name, behs, args, stats, jobs=8, timeout=2400, chunk=40):
     work = '%s/work/%s' % (vf.BUILD, chk.pid)
     os.makedirs(work, exist_ok=True)
     t0 = time.time()
-    results, crashes, lsan = pdrive(behs, work, name, args, jobs, timeout)
+    results, crashes, lsan = pdrive(behs, work, name, args, jobs, timeout, chunk)
     vf.log('[C20] %s: %d cases driven in %.0fs, %d crash(es)' % (name, len(behs), time.time() - t0, len(crashes)))
     stats['evaluations'] += len(results)
     stats['nontrivial'] += sum(1 for r in results.values() if r.get('nontrivial', 0) > 0)
@@ -210,9 +209,9 @@ def main(tier):
     stats = {'evaluations': 0, 'nontrivial': 0, 'steps': 0, 'skipped': 0, 'fns': set(), 'skipwhy': collections.Counter(),
              'library_crashes': [], 'flaky_crashes': 0}
     run_family(chk, 'enum', fam['enum'], args, stats, jobs=1)
-    run_family(chk, 'unit', fam['unit'], args, stats, jobs=10)
+    run_family(chk, 'unit', fam['unit'], args, stats, jobs=12, chunk=20)
     run_family(chk, 'life', fam['life'] + [b for b in fam['lifesim'] if b not in set(fam['life'])], args, stats, jobs=8)
-    run_family(chk, 'ops', fam['ops'], args, stats, jobs=10)
+    run_family(chk, 'ops', fam['ops'], args, stats, jobs=12, chunk=5)
     exp = exported()
     bound = sorted(set(exp) & stats['fns'])
     rows = set(json.loads(s)['steps'][0]['f'] for s in fam['unit'])
